@@ -83,6 +83,16 @@ CLAIMED = {
             'Trusts harness/fakeconn.py (readline/read/write model); reply and URL texts come from pools enumerated by the solver; segmentation '
             'invariance of the control stream reduces to asyncio StreamReader.readline (outside the claim).',
             'DESIGN.md 3/C17', 'argument string symbolic; URL pieces, reply shapes, reply codes by symbolic index'),
+    'C16': ('other',
+            'Bounded symbolic verification of the bytes written by the real Request.prepare_for_send/to_bytes through Stream.write_request, '
+            'and of every hop produced by the real WebSession/RedirectTracker/CookieJarWrapper over a scripted stub session: URL components, '
+            'redirect codes and targets, credential placement, cookie state and proxy mode are symbolic indices into pools; each request must be '
+            'one well-formed request line for THAT hop URL (origin or absolute form), one Host naming it, no CR/LF/space smuggled, no '
+            'Authorization or Cookie of the first host on another host, no Referer from https to http; plus a free symbolic string inside host, '
+            'path, query and user-info as a hunt.',
+            'Trusts the stub HTTP session (it performs the real write_request), FakeConnection, stdlib http.cookiejar (run untraced); pools are '
+            'finite; chains <=2 hops (thorough 3).',
+            'DESIGN.md 3/C16', 'pool indices enumerated by the solver; free hole <=2-3 characters'),
 }
 
 NOT_APPLICABLE = {
@@ -92,7 +102,7 @@ NOT_APPLICABLE = {
 }
 
 PENDING = {k: 'claimed in DESIGN.md 3 but its check is not built yet at this commit' for k in
-           'C04 C05 C07 C08 C09 C10 C15 C16 C20'.split()}
+           'C04 C05 C07 C08 C09 C10 C15 C20'.split()}
 
 
 def main():
